@@ -88,6 +88,9 @@ func genStrand(rng *rand.Rand) seq.Strand { return seq.Strand(rng.Intn(3) - 1) }
 // genLongField returns a text field of 4000..9000 bytes: a line holding it is longer than a 4096-byte read buffer.
 func genLongField(rng *rand.Rand) string {
 	n := 4000 + rng.Intn(5001)
+	if rng.Intn(6) == 0 { // now and then longer than 64 KiB, the largest token a bufio.Scanner hands out by default
+		n = 66000 + rng.Intn(20000)
+	}
 	b := make([]byte, n)
 	for i := range b {
 		b[i] = byte(33 + rng.Intn(94))
